@@ -179,7 +179,7 @@ impl Prop for BitsProp {
         } else {
             ctx.nontrivial = n > 512 && !m.ones.is_empty() && !m.zeros.is_empty();
         }
-        let o = BitOpts { unchecked: false, budget: if ctx.thorough { 100 } else { 60 }, iterators: n <= 400_000, ..BitOpts::default() };
+        let o = BitOpts { unchecked: false, budget: if ctx.thorough { 100 } else { 60 }, iterators: n <= 400_000, full_select_upto: if self.id == "C07" { 40_000 } else { 9000 }, ..BitOpts::default() };
         check_bits(&v, &m, c.plan_seed, o, ctx)
     }
 }
